@@ -36,7 +36,7 @@ func init() {
 	register(&Property{
 		Meta: report.Meta{
 			Property:    "C04",
-			Explanation: "Decision tables read off the CFG of both IsValidAt methods (every combination of bound present/absent and probe before/after), of verifyTimeBoundAt (invocation and every delegation of a full-range loop must be valid at the probe instant), of verifyTimeBound / IsValidNow (probe = time.Now()), and of parse.OptionalTimestamp (nil -> nil; value = time.Unix(sec,0); int53 bounds). Field/method pairing (expiration<->After, notBefore<->Before) and receiver/argument roles are part of the atoms. (R5) every exported option constructor: the function it returns, enumerated in the context of its creator, stores into *time.Time fields only cells allocated during the application, cells of the creator that no application writes (idempotent time.Round / Truncate / UTC of the cell's own value excepted), nil, or the caller's pointer. When the returned function ends in the application of another exported time option to the token, the single argument of that option must satisfy the same condition on the instant. (R3) on every path of executionAllowed the first call of time.Now comes after the call of loadProofs.",
+			Explanation: "Decision tables read off the CFG of both IsValidAt methods (every combination of bound present/absent and probe before/after), of verifyTimeBoundAt (invocation and every delegation of a full-range loop must be valid at the probe instant), of verifyTimeBound / IsValidNow (probe = time.Now()), and of parse.OptionalTimestamp (nil -> nil; value = time.Unix(sec,0); int53 bounds). Field/method pairing (expiration<->After, notBefore<->Before) and receiver/argument roles are part of the atoms. (R5) every exported option constructor: the function it returns, enumerated in the context of its creator, stores into *time.Time fields only cells allocated during the application, cells of the creator that no application writes (idempotent time.Round / Truncate / UTC of the cell's own value excepted), nil, or the caller's pointer. When the returned function ends in the application of another exported time option to the token, the single argument of that option must satisfy the same condition on the instant. (R3) on every path of executionAllowed the first call of time.Now comes after the call of loadProofs. (R5) if one path of the function an option returns stores a *time.Time field of the token, every path returning a nil error stores it, and none stores a value read from that very field of the token.",
 			Assumptions: []string{"time.Time.After/Before/Unix semantics", "go/ssa faithfully represents the source"},
 			Trusted:     []string{"golang.org/x/tools/go/ssa v0.29.0", "package time"},
 			NotDecided:  []string{"behaviour exactly at a bound (left open by the property)", "time package semantics"},
